@@ -98,6 +98,15 @@ func checkPacketCodec(c *mon.Ctx, stage string, idx int64, p *astits.Packet) {
 	c.Count("packets_parsed_and_compared")
 	// (2) write the model
 	model := mon.Clone(p)
+	if idx%2 == 1 && model.AdaptationField != nil && !model.AdaptationField.IsOneByteStuffing {
+		// the length fields a parser fills in as a by-product are stale in a packet an application has edited: what is written is
+		// determined by the content
+		model.AdaptationField.Length = int(mon.HashBytes("stale", ref) % 256)
+		if model.AdaptationField.AdaptationExtensionField != nil {
+			model.AdaptationField.AdaptationExtensionField.Length = int(mon.HashBytes("stale2", ref) % 256)
+		}
+		c.Count("packets_written_with_stale_length_fields")
+	}
 	out, n, werr, pan := muxWritePacket(model)
 	switch {
 	case pan != "":
